@@ -6,7 +6,7 @@ from .. import lbgen, lbshadow
 from . import c02
 
 ID = "C04"
-MODULES = ["Helios.Props.C04", "Helios.Props.C04M", "Helios.Props.Code"]
+MODULES = ["Helios.Props.C04", "Helios.Props.C04M", "Helios.Props.CodeLB"]
 THEOREMS = ["Helios.LB.passive_below_threshold", "Helios.LB.passive_at_threshold", "Helios.LB.finish_no_eject",
             "Helios.LB.probe_fail_ejects", "Helios.LB.probe_ok_never_ejects", "Helios.LB.no_traffic_in_window",
             "Helios.LB.recovers_after_window", "Helios.LB.lazy_expiry", "Helios.LB.eject_mirror",
@@ -16,7 +16,7 @@ THEOREMS = ["Helios.LB.passive_below_threshold", "Helios.LB.passive_at_threshold
             "Helios.CodeTie.markUnhealthy_refines", "Helios.CodeTie.isBackendHealthy_refines",
             "Helios.CodeTie.processResponse_refines", "Helios.CodeTie.handleFailure_is_eject",
             "Helios.CodeTie.isHealthyAt_checkObj", "Helios.CodeTie.probeEnd_probeEndObj",
-            "Helios.CodeTie.passive_refines", "Helios.CodeTie.passiveFail_passiveObj", "Helios.CodeTie.translation_clean"]
+            "Helios.CodeTie.passive_refines", "Helios.CodeTie.passiveFail_passiveObj", "Helios.CodeTie.translation_clean_lb"]
 SEC = lbgen.SEC
 
 
@@ -65,6 +65,50 @@ def gen_episode(rng, long=False):
         # last op: the lazy expiry check racing a fresh ejection (real goroutines, spin gate)
         g.ops.append("lb ejectrace %d %d" % (g.t, 3000 if long else 400))
     return g.ops
+
+
+def churn_episode(rng):
+    """a long-lived balancer: a thousand short-lived backends come and go (autoscaling), then a
+    permanent one fails — the listing and the metrics must still show it ejected"""
+    ops = ["lb new %s 1 2 2 0 0 0 0 0 0 0 0 0" % rng.choice(["round_robin", "least_connections", "weighted_round_robin"]),
+           "lb add keep 1 good"]
+    for i in range(1005):
+        ops.append("lb add tmp%d 1 good" % i)
+        ops.append("lb remove tmp%d" % i)
+    t = 10**9
+    ops += ["lb eject keep %d %d" % (t, 5 * 10**9), "lb list", "lb metrics",
+            "lb begin 1 %d - - 10.0.0.1:1" % (t + 1), "lb list", "lb metrics"]
+    return ops
+
+
+def front_eject_episodes():
+    """passive ejection as the real front end applies it (cmd/helios handler, sockets): three failed
+    exchanges of any kind in a row — also ones the handler deadline ends before the backend read
+    timeout would — and the backend is out: the next request is not sent to it"""
+    eps = []
+    for hc, faults in ((2, ("s500", "refuse", "hang", "garbage", "i503")), (3, ("hang", "s500"))):
+        for f in faults:
+            eps.append(["ft new round_robin 0 0 %d 0" % hc] + ["ft req " + f] * 3 + ["ft req ok", "ft close"])
+    return eps
+
+
+def front_eject_oracle(ep, outs):
+    lines = C.op_lines(ep)
+    hits = []
+    for l, o in zip(lines, outs):
+        if l.startswith("ft req"):
+            d = dict(t.split("=", 1) for t in o.split(" || ", 1)[-1].split() if "=" in t)
+            hits.append((l, d.get("class"), int(d.get("hits", "-1")), int(d.get("at", "0")), int(d.get("ms", "0"))))
+    if len(hits) < 4 or len(set(h[0] for h in hits[:3])) != 1 or not hits[3][0].endswith(" ok"):
+        return []
+    window = 2000 if lines[0].split()[5] == "3" else 1000
+    (l3, c3, h3, at3, _), (l4, c4, h4, at4, ms4) = hits[2], hits[3]
+    if at4 - ms4 - at3 > window - 300:
+        return []           # a loaded machine: the unhealthy window may have run out in between
+    if h4 != h3 or c4 != "503":
+        return ["after 3 failed exchanges in a row (%s, threshold 3) the only backend is still offered traffic: the next request was answered %s and %s it" % (
+            hits[0][0].split()[2], c4, "reached" if h4 != h3 else "did not reach")]
+    return []
 
 
 def oracle(ep, outs):
@@ -150,8 +194,13 @@ def check(ctx):
     def orc(ep, outs):
         sh_now[0] = 0
         return oracle(ep, outs)
-    episodes = C.load_corpus(ID) + [gen_episode(ctx.rng, ctx.thorough()) for _ in range(nep)]
+    episodes = C.load_corpus(ID) + [gen_episode(ctx.rng, ctx.thorough()) for _ in range(nep)] + [churn_episode(ctx.rng)]
     bad = d.check(episodes, oracle=orc, label="health")
+    from . import c03
+    dfe = C.Differential(ctx, c03.build(ctx), timeout=600, project=c03.project)
+    fe = front_eject_episodes()
+    dfe.check(fe, oracle=front_eject_oracle, label="health-front")
+    ctx.cov["front_end_ejection_episodes"] = len(fe)
     ev = {}
     nontriv = set()
     if bad == 0:
